@@ -291,11 +291,11 @@ def run(ctx):
     for key, n in inv.items():
         have = table.get(key)
         if have is None or n > have[0]:
-            excess[(c14.crate_of(key[0]), key[1])] += n - (have[0] if have else 0)
+            excess[(c14.crate_of(key[0]), c14.kind_family(key[1]))] += n - (have[0] if have else 0)
     for key, n in sorted(inv.items()):
         have = table.get(key)
         where = "%s:%s" % lines[key][0]
-        ck = (c14.crate_of(key[0]), key[1])
+        ck = (c14.crate_of(key[0]), c14.kind_family(key[1]))
         if (have is None or n > have[0]) and excess[ck] <= budget[ck]:
             classes["moved"] += n
             ctx.ob("R9.1", "%s|%s" % key, True,
